@@ -76,6 +76,14 @@ def r1_r2(F, R):
         fields["*.max_step_size"] = AV(PARAM_DOMAINS["*.max_step_size"], "C", {"cap"})
         fields["self.count"] = AV(Iv(cnt_lo, INF, False, True), "C")
         fields["self.mu"] = AV(None, "C")
+        # a constant derived from the settings and cached in a field at construction (`log_max_step_size: settings.max_step_size.ln()`)
+        # is that constant: every writer of the field stores ln(<settings>.max_step_size)
+        for f_ in (F.adts.get(adt, {}).get("variants") or [{}])[0].get("fields", []):
+            if f_["ty"] != "f64" or ("self." + f_["name"]) in fields:
+                continue
+            ws_ = [w for w in K.field_writers(F, adt, f_["name"]) if not (w[3][0] == "call" and path_ends(w[3][1], "Clone::clone"))]
+            if ws_ and all(w[3][0] == "call" and strip_generics(w[3][1]).endswith("f64::ln") and w[3][2] and w[3][2][0][0] == "field" and w[3][2][0][2] == "max_step_size" for w in ws_):
+                fields["self." + f_["name"]] = AV(None, "C", {"cap"})
         if mode == "new":
             fields["self.hbar"] = AV(None, "C")
             fields["self.log_step"] = AV(None, "C")
